@@ -67,12 +67,24 @@ Context (c : Crypto).
 (* ---- compute_kek / compute_public_key on well-formed public keys ---- *)
 Lemma STR_DH_self : str_eqb STR_DH STR_DH = true. Proof. reflexivity. Qed.
 
+(* the DH parameters of the group key (secret_parameters of the envelope), decoded *)
+Definition dh_group_params (sp : bytes) (kl p g : Z) : Prop :=
+  FFCDHParameters_unpack sp = Ok {| ffp_key_length := kl; ffp_field_order := p; ffp_generator := g |}.
+Lemma dh_pub_validb_spec p v : dh_pub_validb p v = true <-> dh_pub_valid p v.
+Proof. unfold dh_pub_validb, dh_pub_valid. lia. Qed.
+
 Lemma compute_kek_dh h sp priv k : wf_ffk k = true -> 0 < ffk_field_order k -> wfb priv = true ->
+  dh_group_params sp (ffk_key_length k) (ffk_field_order k) (ffk_generator k) ->
+  dh_pub_valid (ffk_field_order k) (ffk_public_key k) ->
   compute_kek c h STR_DH sp priv (concat (ffk_field_list k)) =
   Ok (kek_dh c h (ffk_field_order k) (ffk_key_length k) (ffk_public_key k) (OS2IP priv)).
 Proof.
-  intros Hwf Hp Hb. unfold compute_kek. rewrite STR_DH_self.
+  intros Hwf Hp Hb Hsp Hv. unfold compute_kek. rewrite STR_DH_self.
   rewrite (FFCDHKey_unpack_fields k Hwf). cbn [bind].
+  unfold dh_group_params in Hsp. rewrite Hsp. cbn [bind].
+  unfold dh_params_mismatch. cbn [ffp_key_length ffp_field_order ffp_generator]. rewrite !Z.eqb_refl. cbn [andb negb].
+  unfold k_dh_pub_bad. unfold dh_pub_valid in Hv.
+  replace ((1 <? ffk_public_key k) && (ffk_public_key k <? ffk_field_order k - 1)) with true by lia. cbn [negb].
   unfold py_pow3. destruct (ffk_field_order k =? 0) eqn:E0; [lia|]. cbn [bind].
   pose proof (be_val_range priv Hb) as Hx.
   rewrite modpow_spec by lia.
@@ -195,10 +207,14 @@ Theorem agree_dh h top (es ep : envelope) (rnd : Z -> bytes) seed kl p g :
   conforming (KDFof h ep) top (env_of es) -> covers (env_of es) (gke_l1 ep) (gke_l2 ep) ->
   K2 (KDFof h ep) top (gke_l1 ep) (gke_l2 ep) = Ok seed ->
   0 < p -> u32b kl = true -> fitsb kl p = true -> fitsb kl g = true ->
+  (* both envelopes carry the group's DH parameters (msKds-SecretAgreementParam of the root key) *)
+  dh_group_params (gke_secret_params es) kl p g -> dh_group_params (gke_secret_params ep) kl p g ->
   let nbytes := bytes_of_bits (gke_priv_len ep) in
   let ybytes := kdf c h seed KDS_SERVICE (lit16z "DH") nbytes in         (* group private key *)
   let y := OS2IP ybytes in let x := OS2IP (rnd nbytes) in
   wfb ybytes = true -> wfb (rnd nbytes) = true ->
+  (* the group public value and the ephemeral public value are valid group elements (not 0, 1, p - 1) *)
+  dh_pub_valid p (dh_public p g y) -> dh_pub_valid p (dh_public p g x) ->
   (* the DC's public-key envelope carries g^y mod p *)
   gke_l2_key ep = concat (ffk_field_list {| ffk_key_length := kl; ffk_field_order := p; ffk_generator := g; ffk_public_key := dh_public p g y |}) ->
   exists kid,
@@ -207,13 +223,13 @@ Theorem agree_dh h top (es ep : envelope) (rnd : Z -> bytes) seed kl p g :
     get_kek c es kid = Ok (kek_dh c h p kl (dh_public p g x) y) /\
     kek_dh c h p kl (dh_public p g x) y = kek_dh c h p kl (dh_public p g y) x.
 Proof.
-  intros Hh Hh' Hps Hpp Hl0 Hrk Has Hap Hpl Hpu H1 H2 Hconf Hcov Hseed Hp Hkl Hfp Hfg nbytes ybytes y x Wy Wx Hl2.
+  intros Hh Hh' Hps Hpp Hl0 Hrk Has Hap Hpl Hpu H1 H2 Hconf Hcov Hseed Hp Hkl Hfp Hfg Gs Gp nbytes ybytes y x Wy Wx Vy Vx Hl2.
   destruct (k_ceil_priv_spec _ Hpu) as [Cg Cn].
   set (kA := {| ffk_key_length := kl; ffk_field_order := p; ffk_generator := g; ffk_public_key := dh_public p g y |}) in *.
   assert (WA : wf_ffk kA = true).
   { unfold wf_ffk, kA. cbn [ffk_key_length ffk_field_order ffk_generator ffk_public_key]. rewrite Hkl, Hfp, Hfg. cbn [andb].
     unfold dh_public, fitsb in *. pose proof (Z.mod_pos_bound (g ^ y) p Hp). lia. }
-  pose proof (compute_kek_dh h (gke_secret_params ep) (rnd nbytes) kA WA Hp Wx) as CK.
+  pose proof (compute_kek_dh h (gke_secret_params ep) (rnd nbytes) kA WA Hp Wx Gp Vy) as CK.
   destruct (compute_public_key_dh (gke_secret_params ep) (rnd nbytes) kA WA Hp Wx) as [WB CP].
   cbn [kA ffk_key_length ffk_field_order ffk_generator ffk_public_key] in CK, CP, WB. fold x in CK, CP, WB.
   set (kB := {| ffk_key_length := kl; ffk_field_order := p; ffk_generator := g; ffk_public_key := dh_public p g x |}) in *.
@@ -226,7 +242,7 @@ Proof.
     unfold kid_is_public_key. cbn [kid_flags]. unfold gke_is_public_key in Hpp. rewrite Hpp.
     unfold compute_kek_from_public_key. rewrite Has, encode_DH. cbn [bind].
     rewrite Hpl, Cg. fold nbytes. rewrite label_spec. fold ybytes.
-    rewrite (compute_kek_dh h _ ybytes kB WB Hp Wy). reflexivity.
+    rewrite (compute_kek_dh h _ ybytes kB WB Hp Wy Gs Vx). reflexivity.
   - unfold kek_dh, dh_shared, dh_public.
     assert (Hx : 0 <= x) by (unfold x; rewrite OS2IP_be_val; apply be_val_range, Wx).
     assert (Hy : 0 <= y) by (unfold y; rewrite OS2IP_be_val; apply be_val_range, Wy).
